@@ -17,11 +17,13 @@ import (
 	"sort"
 	"strconv"
 	"strings"
+	"sync"
 	"time"
 
 	"context"
 
 	"google.golang.org/grpc/metadata"
+	"google.golang.org/protobuf/proto"
 
 	gpb "github.com/openconfig/gnmi/proto/gnmi"
 	fgnmi "github.com/openconfig/gnmi/testing/fake/gnmi"
@@ -141,6 +143,9 @@ type Case struct {
 	Obs    []Obs  `json:"obs,omitempty"`
 	Obs2   []Obs  `json:"obs2,omitempty"`
 	Draws  []Draw `json:"draws,omitempty"`
+	Poll   bool   `json:"poll,omitempty"`  // client family in POLL mode: two passes from one Client/config
+	Fixed  []Obs  `json:"fixed,omitempty"` // family fixed: backing array of configured responses
+	Ks     []int  `json:"ks,omitempty"`    // family fixed: prefix length of each generator, in order
 }
 
 // Draw is one direct call on a real rand.Rand (family "draws").  F: int63n intn float64.
@@ -328,14 +333,14 @@ func projVal(o *Obs, v *fpb.Value) {
 
 // runQueue does what fake/gnmi/client.go reset does, with the queue API, and
 // calls Next up to steps times.
-func runQueue(c Case) (out []Obs) {
+func runQueue(c Case, vals []*fpb.Value) (out []Obs) {
 	defer func() {
 		if r := recover(); r != nil {
 			out = append(out, Obs{Kind: "end", End: "panic", Msg: fmt.Sprint(r)})
 		}
 	}()
 	n := len(c.Ops)
-	q := queue.New(false, c.Seed, buildAll(c.Ops))
+	q := queue.New(false, c.Seed, vals)
 	if !c.NoSync {
 		q.Add(&fpb.Value{
 			Timestamp: &fpb.Timestamp{Timestamp: q.Latest()},
@@ -371,21 +376,70 @@ func runQueue(c Case) (out []Obs) {
 // stub stream for Client.Run: one SubscribeRequest, then EOF; Send accepts
 // `limit` responses and then fails.
 type stream struct {
-	recvd bool
+	recvs int
 	limit int
 	n     int
+	mu    sync.Mutex
 	out   []Obs
+	// POLL mode: pass is the number of responses of one pass; sent is signalled
+	// after every Send; cl is closed before the last Poll so that Run returns.
+	poll bool
+	pass int
+	sent chan struct{}
+	cl   *fgnmi.Client
+}
+
+func (s *stream) count() int {
+	s.mu.Lock()
+	defer s.mu.Unlock()
+	return len(s.out)
+}
+
+func (s *stream) waitFor(k int) {
+	deadline := time.After(10 * time.Second)
+	for s.count() < k {
+		select {
+		case <-s.sent:
+		case <-time.After(5 * time.Millisecond):
+		case <-deadline:
+			return
+		}
+	}
 }
 
 func (s *stream) Recv() (*gpb.SubscribeRequest, error) {
-	if !s.recvd {
-		s.recvd = true
-		return &gpb.SubscribeRequest{Request: &gpb.SubscribeRequest_Subscribe{Subscribe: &gpb.SubscriptionList{}}}, nil
+	s.recvs++
+	if s.recvs == 1 {
+		sl := &gpb.SubscriptionList{}
+		if s.poll {
+			sl.Mode = gpb.SubscriptionList_POLL
+		}
+		return &gpb.SubscribeRequest{Request: &gpb.SubscribeRequest_Subscribe{Subscribe: sl}}, nil
+	}
+	if s.poll && s.recvs == 2 {
+		s.waitFor(s.pass) // first pass delivered
+		return &gpb.SubscribeRequest{Request: &gpb.SubscribeRequest_Poll{Poll: &gpb.Poll{}}}, nil
+	}
+	if s.poll && s.recvs == 3 {
+		s.waitFor(2 * s.pass) // second pass delivered
+		time.Sleep(2 * time.Millisecond)
+		s.cl.Close() // the Poll below makes the sender look at the queue again and stop
+		return &gpb.SubscribeRequest{Request: &gpb.SubscribeRequest_Poll{Poll: &gpb.Poll{}}}, nil
 	}
 	return nil, io.EOF
 }
 
 func (s *stream) Send(r *gpb.SubscribeResponse) error {
+	s.mu.Lock()
+	defer func() {
+		s.mu.Unlock()
+		if s.sent != nil {
+			select {
+			case s.sent <- struct{}{}:
+			default:
+			}
+		}
+	}()
 	if len(s.out) >= s.limit {
 		return fmt.Errorf("stub stream closed")
 	}
@@ -434,15 +488,15 @@ func (s *stream) Context() context.Context     { return context.Background() }
 func (s *stream) SendMsg(interface{}) error    { return nil }
 func (s *stream) RecvMsg(interface{}) error    { return nil }
 
-// runClient runs the real fake-agent client on the stub stream.
-func runClient(c Case) (out []Obs) {
+// runClient runs the real fake-agent client on the stub stream; cfg is used
+// as it is (the same object for every generator of a case).
+func runClient(c Case, cfg *fpb.Config) (out []Obs) {
 	st := &stream{limit: c.Steps, n: len(c.Ops)}
 	defer func() {
 		if r := recover(); r != nil {
 			out = append(st.out, Obs{Kind: "end", End: "panic", Msg: fmt.Sprint(r)})
 		}
 	}()
-	cfg := &fpb.Config{Target: "t", Seed: c.Seed, Values: buildAll(c.Ops), DisableSync: c.NoSync}
 	cl := fgnmi.NewClient(cfg)
 	_ = cl.Run(st)
 	if len(st.out) < c.Steps {
@@ -451,21 +505,165 @@ func runClient(c Case) (out []Obs) {
 	return st.out
 }
 
-func runOnce(c Case) []Obs {
-	ch := make(chan []Obs, 1)
-	go func() {
-		if c.Client {
-			ch <- runClient(c)
-		} else {
-			ch <- runQueue(c)
+// runPoll: one Client in POLL mode; pass responses, a Poll, pass responses
+// again (client.go recv calls reset on the SAME configuration), then a last
+// Poll after Close so that Run returns.  Returns the two passes.
+func runPoll(c Case, cfg *fpb.Config, pass int) (p1, p2 []Obs) {
+	st := &stream{limit: 2*pass + 4, n: len(c.Ops), poll: true, pass: pass, sent: make(chan struct{}, 1)}
+	defer func() {
+		if r := recover(); r != nil {
+			p1 = append(st.out, Obs{Kind: "end", End: "panic", Msg: fmt.Sprint(r)})
 		}
 	}()
+	cl := fgnmi.NewClient(cfg)
+	st.cl = cl
+	_ = cl.Run(st)
+	out := st.out
+	done := Obs{Kind: "end", End: "done"}
+	if len(out) < 2*pass {
+		return append(append([]Obs{}, out...), done), []Obs{{Kind: "end", End: "hang", Msg: "second pass incomplete"}}
+	}
+	p1 = append(append([]Obs{}, out[:pass]...), done)
+	p2 = append(append([]Obs{}, out[pass:2*pass]...), done)
+	if len(out) > 2*pass {
+		p2 = append(p2, out[2*pass:]...) // a third pass must not start
+	}
+	return p1, p2
+}
+
+func guarded(f func() []Obs) []Obs {
+	ch := make(chan []Obs, 1)
+	go func() { ch <- f() }()
 	select {
 	case o := <-ch:
 		return o
 	case <-time.After(20 * time.Second):
 		return []Obs{{Kind: "end", End: "hang"}}
 	}
+}
+
+func sameObs(a, b []Obs) bool {
+	x, _ := json.Marshal(a)
+	y, _ := json.Marshal(b)
+	return string(x) == string(y)
+}
+
+// pick returns the first sequence that differs from seqs[0], else seqs[1].
+func pick(seqs [][]Obs) []Obs {
+	for _, s := range seqs[1:] {
+		if !sameObs(seqs[0], s) {
+			return s
+		}
+	}
+	return seqs[1]
+}
+
+func normTS(v *fpb.Value) *fpb.Value {
+	w := proto.Clone(v).(*fpb.Value)
+	if w.Timestamp == nil {
+		w.Timestamp = &fpb.Timestamp{} // addValue installs an empty Timestamp; same meaning
+	}
+	return w
+}
+
+// observe drives the real code for one case.  Every generator of a case is
+// built from the SAME configuration object (never cloned in between): three in
+// the queue and client families, a STREAM run and a two-pass POLL run in the
+// poll family, the listed prefixes in the fixed family.
+func observe(c *Case) (mutated bool) {
+	switch {
+	case c.Fixed != nil:
+		observeFixed(c)
+		return false
+	}
+	vals := buildAll(c.Ops)
+	before := make([]*fpb.Value, len(vals))
+	for i, v := range vals {
+		before[i] = normTS(v)
+	}
+	cfg := &fpb.Config{Target: "t", Seed: c.Seed, Values: vals, DisableSync: c.NoSync}
+	var seqs [][]Obs
+	switch {
+	case c.Poll:
+		qs := guarded(func() []Obs { return runQueue(*c, vals) })
+		ok := len(qs) > 0 && qs[len(qs)-1].Kind == "end" && qs[len(qs)-1].End == "done"
+		for _, o := range qs {
+			if o.VK == "unset" {
+				ok = false
+			}
+		}
+		if !ok { // not a finite error-free configuration: ordinary client case
+			c.Poll = false
+			c.Family = "client"
+			return observe(c)
+		}
+		pass := len(qs) - 1
+		s0 := guarded(func() []Obs { return runClient(*c, cfg) })
+		var p1, p2 []Obs
+		r := guarded(func() []Obs { p1, p2 = runPoll(*c, cfg, pass); return nil })
+		if r != nil {
+			p1, p2 = r, r
+		}
+		seqs = [][]Obs{p1, p2, s0}
+	case c.Client:
+		for i := 0; i < 3; i++ {
+			seqs = append(seqs, guarded(func() []Obs { return runClient(*c, cfg) }))
+		}
+	default:
+		for i := 0; i < 3; i++ {
+			seqs = append(seqs, guarded(func() []Obs { return runQueue(*c, vals) }))
+		}
+	}
+	c.Obs, c.Obs2 = seqs[0], pick(seqs)
+	for i, v := range vals {
+		if !proto.Equal(before[i], normTS(v)) {
+			mutated = true
+		}
+	}
+	if mutated { // a generator changed the caller's configuration
+		c.Obs2 = append(append([]Obs{}, c.Obs2...), Obs{Kind: "end", End: "hang", Msg: "configuration mutated"})
+	}
+	return mutated
+}
+
+func respOf(o Obs, n int) *gpb.SubscribeResponse {
+	switch o.Kind {
+	case "sync":
+		return &gpb.SubscribeResponse{Response: &gpb.SubscribeResponse_SyncResponse{SyncResponse: o.B}}
+	case "del":
+		return &gpb.SubscribeResponse{Response: &gpb.SubscribeResponse_Update{Update: &gpb.Notification{
+			Timestamp: o.TS, Delete: []*gpb.Path{{Element: pathOf(o.ID)}}}}}
+	}
+	return &gpb.SubscribeResponse{Response: &gpb.SubscribeResponse_Update{Update: &gpb.Notification{
+		Timestamp: o.TS, Update: []*gpb.Update{{Path: &gpb.Path{Element: pathOf(o.ID)},
+			Val: &gpb.TypedValue{Value: &gpb.TypedValue_IntVal{IntVal: o.I}}}}}}}
+}
+
+// observeFixed: one backing array of responses; generator i is built from the
+// configuration whose Responses slice is backing[:Ks[i]] (one *fpb.Config per
+// distinct prefix length, reused).  Obs = first generator, Obs2 = last one.
+func observeFixed(c *Case) {
+	backing := make([]*gpb.SubscribeResponse, len(c.Fixed))
+	for i, o := range c.Fixed {
+		backing[i] = respOf(o, len(c.Fixed))
+	}
+	cfgs := map[int]*fpb.Config{}
+	var seqs [][]Obs
+	for _, k := range c.Ks {
+		if k > len(backing) {
+			k = len(backing)
+		}
+		cfg := cfgs[k]
+		if cfg == nil {
+			cfg = &fpb.Config{Target: "t", DisableSync: c.NoSync,
+				Generator: &fpb.Config_Fixed{Fixed: &fpb.FixedGenerator{Responses: backing[:k]}}}
+			cfgs[k] = cfg
+		}
+		cc := *c
+		cc.Ops = make([]Val, len(c.Fixed)) // ids of the responses
+		seqs = append(seqs, guarded(func() []Obs { return runClient(cc, cfg) }))
+	}
+	c.Obs, c.Obs2 = seqs[0], seqs[len(seqs)-1]
 }
 
 // ---------------------------------------------------------------------------
@@ -717,8 +915,19 @@ func caseTerm(n *vh.Names, c Case) string {
 	if len(c.Draws) > 0 {
 		g += 60
 	}
-	return fmt.Sprintf("mkCase %s %s %s %s %d%%nat %s %s %s", vh.Bool(c.Client), vh.List(vals),
-		zs(tapeOf(c.Seed, g)), vh.Bool(c.NoSync), c.Steps, obsList(n, c.Obs), obsList(n, c.Obs2), drawsTerm(c.Draws))
+	fixed := "None"
+	if c.Fixed != nil {
+		ks := make([]string, len(c.Ks))
+		for i, k := range c.Ks {
+			if k > len(c.Fixed) {
+				k = len(c.Fixed)
+			}
+			ks[i] = vh.Nat(k)
+		}
+		fixed = fmt.Sprintf("(Some (%s, %s))", obsList(n, c.Fixed), vh.List(ks))
+	}
+	return fmt.Sprintf("mkCase %s %s %s %s %d%%nat %s %s %s %s", vh.Bool(c.Client), vh.List(vals),
+		zs(tapeOf(c.Seed, g)), vh.Bool(c.NoSync), c.Steps, obsList(n, c.Obs), obsList(n, c.Obs2), drawsTerm(c.Draws), fixed)
 }
 
 // ---------------------------------------------------------------------------
@@ -872,7 +1081,8 @@ func randVal(r *vh.Rand, base []int64, seeds []int64) Val {
 			v.Random = r.Chance(1, 2)
 		}
 	case 6:
-		v.K = "sync" // value 0: distinguishable from the injected sync in the client family
+		v.K = "sync" // explicit sync value (0: sent as sync=false), anywhere relative to the others
+		v.Sync = uint64(r.Intn(3))
 	case 7:
 		v.K = "delete"
 	}
@@ -1004,9 +1214,55 @@ func randCase(r *vh.Rand, client bool, edge bool) (Case, string) {
 	return c, what
 }
 
+// randPoll: a finite, valid configuration run through one Client in POLL mode.
+func randPoll(r *vh.Rand) Case {
+	c, _ := randCase(r, true, false)
+	c.Family, c.Poll = "poll", true
+	for i := range c.Ops {
+		c.Ops[i].Repeat = int32(1 + r.Intn(3))
+	}
+	c.Steps = 24
+	return c
+}
+
+// randFixed: FixedQueue through Client.Run; generators from prefixes of one
+// backing array, the same configuration object for equal prefixes.
+func randFixed(r *vh.Rand) Case {
+	c := Case{Family: "fixed", Client: true, Seed: 1, NoSync: r.Chance(1, 5)}
+	n := 1 + r.Intn(6)
+	ts := int64(0)
+	for i := 0; i < n; i++ {
+		ts += int64(r.Intn(3))
+		switch r.Pick(6, 2, 1) {
+		case 0:
+			c.Fixed = append(c.Fixed, Obs{Kind: "upd", ID: r.Intn(3), TS: ts, VK: "int", I: int64(r.Intn(9))})
+		case 1:
+			c.Fixed = append(c.Fixed, Obs{Kind: "del", ID: r.Intn(3), TS: ts})
+		default:
+			c.Fixed = append(c.Fixed, Obs{Kind: "sync", B: r.Chance(1, 2)})
+		}
+	}
+	k := r.Intn(n + 1)
+	switch r.Pick(3, 3, 2, 1) {
+	case 0:
+		c.Ks = []int{n, n, n}
+	case 1:
+		c.Ks = []int{n, k, n} // a shorter prefix of the same array in between
+	case 2:
+		c.Ks = []int{k, k, k} // spare capacity behind the configured responses
+	default:
+		c.Ks = []int{k, n, k}
+	}
+	c.Steps = 2 + r.Intn(9)
+	return c
+}
+
 // ---------------------------------------------------------------------------
 
 func nontrivial(c Case) bool {
+	if c.Fixed != nil {
+		return len(c.Fixed) >= 2
+	}
 	ids := map[int]bool{}
 	k := 0
 	for _, o := range c.Obs {
@@ -1034,8 +1290,9 @@ type emitter struct {
 }
 
 func (e *emitter) add(c Case, what string) {
-	c.Obs = runOnce(c)
-	c.Obs2 = runOnce(c)
+	if observe(&c) {
+		e.meta.Hist("config-mutated")
+	}
 	runDraws(&c)
 	for _, d := range c.Draws {
 		e.meta.Hist("draw:" + d.F)
@@ -1098,7 +1355,7 @@ func main() {
 	if devnull != nil {
 		os.Stderr = devnull // glog of fake/gnmi (log.Errorf on every stream end)
 	}
-	meta := vh.NewMeta("corpus cases; seeded random configurations of 0..5 values of every kind (int/uint/double/string/string-list/bool/sync/delete) with range, list (random or rotating) or no distribution, value deltas, repeat in {-1,0,1,2,3,5}, shared and distinct small initial timestamps, timestamp deltas 0..6 (occasionally up to 2^45), global and per-value seeds (shared, equal, distinct), with and without the injected sync; each run for 6..35 steps through queue.New/Add/Next and through fake/gnmi Client.Run; an 'edge' family adds one documented error or boundary shape per case; a 'draws' family calls Int63n/Intn/Float64 of a real rand.Rand directly with moduli that make the rejection loops run (validation of the math/rand port). distinct = distinct configuration+seed+steps; non-trivial = at least 3 values emitted")
+	meta := vh.NewMeta("corpus cases; seeded random configurations of 0..5 values of every kind (int/uint/double/string/string-list/bool/sync/delete) with range, list (random or rotating) or no distribution, value deltas, repeat in {-1,0,1,2,3,5}, shared and distinct small initial timestamps, timestamp deltas 0..6 (occasionally up to 2^45), global and per-value seeds (shared, equal, distinct), with and without the injected sync; each run for 6..35 steps through queue.New/Add/Next and through fake/gnmi Client.Run; an 'edge' family adds one documented error or boundary shape per case; a 'poll' family runs finite configurations through one Client in POLL mode (two passes from the same configuration object, compared with each other and with a STREAM run); every generator of a case is built from the SAME configuration object (three in a row in the queue/client families) and the configuration is compared before/after; a 'fixed' family drives FixedQueue through Client.Run with generators built from prefixes of one backing array ([n,n,n], [n,k,n], [k,k,k], [k,n,k]); explicit sync values 0..2 occur with DisableSync=false at any position; a 'draws' family calls Int63n/Intn/Float64 of a real rand.Rand directly with moduli that make the rejection loops run (validation of the math/rand port). distinct = distinct configuration+seed+steps; non-trivial = at least 3 values emitted")
 	e := &emitter{dir: o.Out, cf: vh.NewCaseFile(), meta: meta, limit: 400}
 
 	if o.Replay != "" {
@@ -1131,11 +1388,17 @@ func main() {
 	}
 
 	r := vh.NewRand(o.Seed)
-	nq, nc, ne, nd := 1800, 1100, 700, 200
+	nq, nc, ne, nd, np, nf := 1500, 800, 600, 200, 300, 300
 	if o.Thorough() {
-		nq, nc, ne, nd = 20000, 10000, 8000, 3000
+		nq, nc, ne, nd, np, nf = 20000, 8000, 8000, 3000, 3000, 3000
 	}
-	rq, rc, re, rd := r.Fork(), r.Fork(), r.Fork(), r.Fork()
+	rq, rc, re, rd, rp, rf := r.Fork(), r.Fork(), r.Fork(), r.Fork(), r.Fork(), r.Fork()
+	for i := 0; i < np; i++ {
+		e.add(randPoll(rp), "")
+	}
+	for i := 0; i < nf; i++ {
+		e.add(randFixed(rf), "")
+	}
 	for i := 0; i < nd; i++ {
 		e.add(randDraws(rd), "")
 	}
